@@ -1260,24 +1260,25 @@ fn sub_expr_boundaries(_tier: Tier) -> Sub {
 }
 
 /// Branches whose displacement fits 16 bits in the source but not after the converter has
-/// re-encoded the operations it jumps over (DW_OP_const1u 0x80 is 2 bytes, the writer's
-/// DW_OP_constu 0x80 is 3): conversion must fail with an error or keep the branch on target.
+/// re-encoded the operations it jumps over (DW_OP_addrx 1 is 2 bytes, the DW_OP_addr the
+/// converter writes instead is 1 + address size bytes): conversion must fail with an error or
+/// keep the branch on target.
 fn sub_expr_long_branches(_tier: Tier) -> Sub {
-    let counts: Vec<usize> = vec![100, 10_922, 10_923, 12_000];
-    let cfgs: Vec<Cfg> = vec![Cfg { version: 4, fmt64: false, asz: 8, big: false }, Cfg { version: 5, fmt64: true, asz: 4, big: true }];
+    let counts: Vec<usize> = vec![50, 3_640, 3_641, 4_000];
+    let cfgs: Vec<Cfg> = vec![Cfg { version: 5, fmt64: false, asz: 8, big: false }];
     let len = counts.len() as u64 * 4 * cfgs.len() as u64;
-    Sub::new("expression-long-branches", len, &format!("one DW_OP_skip / DW_OP_bra forward over, or backward to the start of, a run of N x DW_OP_const1u 0x80 followed by the same number of DW_OP_drop-free no-ops, N in {:?} (the source displacement 2N fits 16 bits, the re-encoded 3N does not from N = 10923 on) x 2 configs, in DW_AT_location", counts), move |ctx, i| {
+    Sub::new("expression-long-branches", len, &format!("one DW_OP_skip / DW_OP_bra forward over, or backward to the start of, a run of N x DW_OP_addrx 1, N in {:?} (the source displacement 2N fits 16 bits, the re-encoded 9N does not from N = 3641 on), DWARF 5, 8-byte addresses, in DW_AT_location", counts), move |ctx, i| {
         let mut x = Mix(i);
         let back = x.flag();
         let bra = x.flag();
         let cfg = *x.pick(&cfgs);
         let n = counts[x.take(counts.len() as u64) as usize];
-        // forward: [branch -> end] c c c ... ; backward: c c c ... [branch -> op 0]
+        // forward: [branch -> end] a a a ... ; backward: a a a ... [branch -> first a]
         let mut ops: Vec<Op> = vec![];
         if bra {
             ops.push(Op::Lit(1));
         }
-        let run: Vec<Op> = (0..n).map(|_| Op::Const1u(0x80)).collect();
+        let run: Vec<Op> = (0..n).map(|_| Op::Addrx(1)).collect();
         if back {
             let first = ops.len();
             ops.extend(run);
